@@ -150,6 +150,17 @@ class Party:
         lo, hi = np.asarray(bounds[0], dtype=float), np.asarray(bounds[1], dtype=float)
         self.lo, self.hi = lo, hi
         self.p0 = np.asarray(p0, dtype=float)
+        # the data reach the optimizer as documented: bin centres repeated per direction, the
+        # directional variograms stacked one after the other (whatever the caller's memory
+        # layout), lat-lon lags converted to chordal distances once
+        mc = self.mc
+        want_y = np.asarray(mc.y, dtype=np.double).reshape(-1)
+        want_x = np.tile(mc.x, mc.dim) if mc.kind == "dir" else (
+            great_circle_to_chordal(mc.x, mc.true.geo_scale) if mc.kind == "latlon" else mc.x)
+        if not close(np.asarray(ydata, dtype=np.double).reshape(-1), want_y, rtol=1e-13) or \
+                not close(self.x.reshape(-1), want_x, rtol=1e-13):
+            raise Violation("C10.data_handed_to_optimizer", kind=mc.kind,
+                            layout=self.op["kwargs"].get("data_layout"))
         if len(self.p0) != self.expect.n:
             raise Violation("C10.param_count", got=len(self.p0), want=self.expect.n)
         if np.any(self.p0 <= lo) or np.any(self.p0 >= hi):
@@ -460,6 +471,7 @@ class Machine:
         kw["bounds"] = rng.random() < 0.3
         kw["nugget_low"] = rng.choice([0.0, 0.0, 0.05, 0.2])
         kw["shared_kwargs"] = rng.random() < 0.4
+        kw["data_layout"] = rng.choice(["C", "C", "F", "strided", "list"])
         if sim and rng.random() < 0.15:
             kw["rescale"] = rng.choice([0.5, 1.0, 2.0, 3.0])
         op = {"op": "fit", "party": "sim" if sim else "real", "kwargs": kw}
@@ -581,8 +593,22 @@ class Machine:
         # refactoring call scipy.optimize.curve_fit through the module, that one as well
         gsfit.curve_fit = party
         scipy.optimize.curve_fit = party
+        xd, yd = self.x.copy(), self.y.copy()
+        lay = kw.get("data_layout", "C")
+        if lay == "F" and yd.ndim == 2:
+            yd = np.asfortranarray(yd)          # e.g. the transpose of an (n_bins, dim) table
+        elif lay == "strided":
+            bx = np.zeros(xd.size * 2)
+            bx[::2] = xd
+            xd = bx[::2]
+            if yd.ndim == 2:
+                by = np.zeros((yd.shape[0], yd.shape[1] * 2))
+                by[:, ::2] = yd
+                yd = by[:, ::2]
+        elif lay == "list":
+            xd, yd = xd.tolist(), yd.tolist()
         try:
-            res = m.fit_variogram(self.x.copy(), self.y.copy(), **call)
+            res = m.fit_variogram(xd, yd, **call)
         except ValueError as e:
             msg = str(e)
             # the failed call may have left a rejected value in the model (write, then
